@@ -462,6 +462,55 @@ def run(run):
                                       'send() failed in the sink is wrong',
                                       {'type': name, 'failed_value': v1,
                                        'value': v2, 'got': sink.value()})
+            # the whole value list again, in this one process and through one
+            # sink that *keeps* the objects it is given (joined at the end):
+            # values that compare equal but encode differently (0.0 / -0.0,
+            # 1 / True / 1.0) meet each other here, forwards and backwards,
+            # and a codec that hands the same buffer object to send() twice
+            # shows in the kept chunks
+            if vals and run.mine(len(name) + 1):
+                class KeepingSink(object):
+                    def __init__(self):
+                        self.kept = []
+
+                    def send(self, b):
+                        self.kept.append(b)
+                seq = vals[:400]
+                for order in (seq, seq[::-1]):
+                    sink, marks, exps = KeepingSink(), [], []
+                    try:
+                        for v in order:
+                            exp = ref(v)
+                            if exp is None or isinstance(exp, set):
+                                continue
+                            if ctx is not None:
+                                t.send_with_context(v, sink, ctx)
+                            else:
+                                t.send(v, sink)
+                            marks.append(len(sink.kept))
+                            exps.append((v, exp))
+                    except Exception as e:
+                        run.violation('send/%s/raised-in-sequence' % name,
+                                      'encoding raised in a sequence of '
+                                      'in-domain values', {'type': name,
+                                                           'error': repr(e)})
+                        break
+                    run.count('values_encoded_in_sequence', len(exps))
+                    start = 0
+                    for (v, exp), end in zip(exps, marks):
+                        got = b''.join(bytes(c) for c in sink.kept[start:end])
+                        start = end
+                        if got != exp:
+                            run.violation(
+                                'send/%s/sequence' % name, 'a value encoded '
+                                'after other values of the same type, into a '
+                                'sink that keeps its chunks, has wrong bytes '
+                                '(state kept between calls, or a buffer '
+                                'handed out twice)', {
+                                    'type': name, 'value': v, 'got': got,
+                                    'expected': exp, 'reverse_order':
+                                    order is not seq})
+                            break
             if run.shard == 0 and len(run.samples) < 8:
                 vs = list(values)[:2]
                 run.sample({'type': name, 'values': vs})
@@ -502,3 +551,4 @@ def run(run):
     run.require('roundtrips', 1000)
     run.require('prefix.raised', 1000)
     run.require('sends_under_step_budget', 100)
+    run.require('values_encoded_in_sequence', 500)
